@@ -247,3 +247,95 @@ UNITS.append(Unit("C12", "jsonargparse._signatures:SignatureArguments._add_signa
 import dataclasses  # noqa: E402
 from contracts.c17 import UNITS as _C17_UNITS  # noqa: E402
 UNITS += [dataclasses.replace(u, prop="C12") for u in _C17_UNITS if u.target.endswith("handle_subcommands")]
+
+
+# ------------------------------------------------------------------------------------------------ _add_signature_arguments
+# every parameter that the resolver reports for the component (C13) is offered exactly once, in signature order, in the group created for
+# the component, with the caller's settings; skipped names / leading positionals are left out; a name that already exists is refused
+# before anything is declared.
+def asa_setup(ctx):
+    n = ctx.choose(4, "number-of-parameters")
+    skip_kind = ["none", "a-name", "first-positional", "two-int-entries", "zero", "name-and-positional"][ctx.choose(6, "skip")]
+    clash = ctx.choose(2, "an-option-with-that-name-already-exists") == 1 if n else False
+    nested = [None, "grp"][ctx.choose(2, "nested_key")]
+    method = [None, "run"][ctx.choose(2, "method_name")]
+    help_given = ctx.choose(2, "help-given") == 1
+    names = ["a", "b", "c"][:n]
+    params = [Rec("ParamData", attrs={"name": nm}) for nm in names]
+    skip = {"none": None, "a-name": {"b"}, "first-positional": {1}, "two-int-entries": {1, 2}, "zero": {0}, "name-and-positional": {"c", 1}}[skip_kind]
+    prefix = "--" + (nested + "." if nested else "")
+    existing = {prefix + names[-1]: Rec("existing action")} if clash else {}
+    container = Rec("the group created for the component")
+    flags = {"fail_untyped": z3.Bool("fail_untyped"), "sub_configs": z3.Bool("sub_configs"), "as_positional": z3.Bool("as_positional"), "instantiate": z3.Bool("instantiate"), "as_group": z3.Bool("as_group")}
+    linked = Rec("linked_targets")
+    comp = Rec("component", attrs={"run": Rec("component.run")})
+    created = []
+
+    def create_group(c, s_, a, k):
+        created.append((a, dict(k)))
+        return container
+
+    def add_param(c, s_, a, k):
+        c.event("offer", a[0], a[1], a[2], a[3], dict(k))
+        a[3].append((nested + "." if nested else "") + a[2].attrs["name"])
+
+    self = Rec("SignatureArguments", attrs={"logger": Rec("Logger", methods={"debug": lambda c, s_, a, k: None}), "_option_string_actions": existing},
+               methods={"_create_group_if_requested": create_group, "_add_signature_parameter": add_param})
+    calls = {"get_signature_parameters": lambda c, a, k: (c.event("resolve", a[0], a[1]), list(params))[1], "get_doc_short_description": lambda c, a, k: "doc of the component"}
+    env = {"self": self, "function_or_class": comp, "method_name": method, "nested_key": nested, "skip": skip, "linked_targets": linked, "help": "given help" if help_given else None}
+    env.update(flags)
+    return Setup(env=env, calls=calls, data=dict(n=n, names=names, params=params, skip=skip, skip_kind=skip_kind, clash=clash, nested=nested, method=method, help_given=help_given, container=container,
+                                                 flags=flags, linked=linked, comp=comp, created=created, prefix=prefix))
+
+
+def asa_expect(d):
+    """-> ('error', why) | ('ok', [params offered])"""
+    skip = d["skip"] or set()
+    ints = [s for s in skip if isinstance(s, int)]
+    params = list(d["params"])
+    if ints:
+        if len(ints) > 1 or any(p <= 0 for p in ints):
+            return ("error", "bad-skip")
+        params = params[ints[0]:]
+    for p in params:
+        if p.attrs["name"] in skip:
+            continue
+        if d["clash"] and p.attrs["name"] == d["names"][-1]:
+            return ("error", "exists")
+    return ("ok", params)
+
+
+def asa_post(ctx, st, result):
+    d = st.data
+    tag = f"[{d['n']} params,skip:{d['skip_kind']}{',exists' if d['clash'] else ''}{',nested' if d['nested'] else ''}{',method' if d['method'] else ''}]"
+    exp = asa_expect(d)
+    ctx.oblige("post", "accepted=>no-existing-option-is-shadowed-and-the-skip-request-is-well-formed" + tag, exp[0] == "ok")
+    if exp[0] != "ok":
+        return
+    offers = [e for e in ctx.events if e[0] == "offer"]
+    want = exp[1]
+    str_skip = {s for s in (d["skip"] or set()) if isinstance(s, str)}
+    ok = len(offers) == len(want) and all(o[3] is p and o[1] is d["container"] and o[2] == d["nested"] and o[4] is result for o, p in zip(offers, want))
+    ctx.oblige("post", "every-reported-parameter(after the skipped leading positionals)-is-offered-exactly-once,in-signature-order,in-the-component's-group,under-the-same-nested-key" + tag, ok)
+    kw_ok = all(set(o[5].get("skip")) == str_skip and o[5].get("fail_untyped") is d["flags"]["fail_untyped"] and o[5].get("sub_configs") is d["flags"]["sub_configs"]
+                and o[5].get("as_positional") is d["flags"]["as_positional"] and o[5].get("linked_targets") is d["linked"] for o in offers)
+    ctx.oblige("post", "each-with-the-caller's-settings(names to skip, fail_untyped, sub_configs, as_positional, linked targets)" + tag, kw_ok)
+    c = d["created"]
+    comp = d["comp"].attrs["run"] if d["method"] else d["comp"]
+    ctx.oblige("post", "one-group-for-the-component(the method when one is named);whole-group-loading-only-when-there-are-parameters;instantiate-as-asked" + tag,
+               len(c) == 1 and c[0][0][0] is comp and c[0][0][1] == d["nested"] and c[0][0][2] is d["flags"]["as_group"] and c[0][0][3] == ("given help" if d["help_given"] else "doc of the component")
+               and c[0][1].get("config_load") is (len(want) > 0) and c[0][1].get("instantiate") is d["flags"]["instantiate"])
+    ctx.oblige("post", "returns-the-keys-that-were-added" + tag, isinstance(result, list) and result == [(d["nested"] + "." if d["nested"] else "") + p.attrs["name"] for p in want])
+    rs = [e for e in ctx.events if e[0] == "resolve"]
+    ctx.oblige("post", "the-parameters-are-those-the-resolver-reports-for-this-component-and-method" + tag, len(rs) == 1 and rs[0][1] is d["comp"] and rs[0][2] == d["method"])
+
+
+def asa_raises(ctx, st, exc):
+    d = st.data
+    exp = asa_expect(d)
+    ctx.oblige("raises", f"ValueError-exactly-for-a-shadowed-option-or-a-malformed-skip,before-anything-is-declared[{d['skip_kind']}{',exists' if d['clash'] else ''}](got {exc.cls})",
+               exc.cls == "ValueError" and exp[0] == "error" and not d["created"] and not [e for e in ctx.events if e[0] == "offer"])
+
+
+UNITS.append(Unit("C12", "jsonargparse._signatures:SignatureArguments._add_signature_arguments", asa_setup, asa_post, asa_raises, max_paths=20000, expect_cover=("return", "raise:ValueError"),
+                  trusted=["get_signature_parameters reports the parameters (C13 units and harness)", "_create_group_if_requested / _add_signature_parameter by contract (the latter: its own unit)"]))
